@@ -23,12 +23,20 @@ type opt struct {
 	clocks     []time.Duration // per-round fixed clock steps (overrides fixedClock)
 	preload    time.Duration // persisted window far in the future before the first campaign
 	rounds     int
+	counts     []uint32      // request sizes of the requester (default 1, 2)
+	saveIvl    time.Duration // tso-save-interval (default 3s)
+	serial     bool          // one driver alternates request / clock step / update round; the second thread only requests
 }
 
 func scenario(o opt) *explore.Scenario {
 	return &explore.Scenario{Name: o.name, MaxPre: o.pre, MaxDev: o.dev, Tiers: o.tiers, Opts: sched.Options{Kinds: o.kinds}, Setup: func() *explore.Instance {
 		w := tsoh.NewWorld(false)
 		w.Takeover = true
+		w.SaveInterval = o.saveIvl
+		counts := o.counts
+		if counts == nil {
+			counts = []uint32{1, 2}
+		}
 		if o.preload != 0 {
 			w.St.PutDirect(tsoh.TSKey, string(typeutil.Uint64ToBytes(uint64(vclock.Epoch.Add(o.preload).UnixNano()))))
 		}
@@ -41,8 +49,22 @@ func scenario(o opt) *explore.Scenario {
 		return &explore.Instance{
 			Names: []string{"req", "upd", "admin"},
 			Threads: []func(){
-				func() { w.Request(n1, 1); w.Request(n1, 2) },
 				func() {
+					for i, c := range counts {
+						w.Request(n1, c)
+						if o.serial && i < len(o.clocks) {
+							old := sched.SetMember(1)
+							vclock.Advance(o.clocks[i])
+							n1.AM.VerifAllocatorUpdaterSync()
+							sched.SetMember(old)
+						}
+					}
+				},
+				func() {
+					if o.serial {
+						w.Request(n1, 1)
+						return
+					}
 					sched.SetMember(1)
 					for i := 0; i < o.rounds; i++ {
 						if i < len(o.clocks) {
@@ -108,6 +130,14 @@ func main() {
 	l = append(l, scenario(opt{name: "preloaded+1h", ad: none, pre: 2, dev: 1, tiers: "quick", kinds: noAtomics, preload: time.Hour, rounds: 2}))
 	l = append(l, scenario(opt{name: "preloaded+1h/handover", ad: tsoh.Handover(-time.Hour), pre: 2, dev: 0, tiers: "quick", kinds: noAtomics, preload: time.Hour, fixedClock: 3 * time.Second, rounds: 1}))
 	l = append(l, scenario(opt{name: "preloaded+1h@3", ad: tsoh.Handover(0), pre: 3, dev: 2, tiers: "thorough", faults: true, preload: time.Hour, rounds: 2}))
+	// the window is far ahead of the clock (slow-clock member on a persisted window in the
+	// future) and the logical part is more than half used at every update: the physical time
+	// creeps forward 1 ms per update towards the stored bound (tso-save-interval 3 ms, so
+	// that the bound is reached within the scenario instead of after 3000 updates)
+	big := []uint32{140000, 140000, 140000, 140000, 1}
+	ms := time.Millisecond
+	l = append(l, scenario(opt{name: "preloaded+1h/logical-creep", ad: none, pre: 1, dev: 0, tiers: "quick", kinds: noAtomics, preload: time.Hour, saveIvl: 3 * ms, counts: big, serial: true, clocks: []time.Duration{ms, ms, ms, ms, ms}, rounds: 5}))
+	l = append(l, scenario(opt{name: "preloaded+1h/logical-creep@2", ad: none, pre: 2, dev: 0, tiers: "thorough", preload: time.Hour, saveIvl: 3 * ms, counts: big, serial: true, clocks: []time.Duration{ms, ms, ms, ms, ms}, rounds: 5}))
 	explore.Main(&explore.Config{
 		Property:  "C02",
 		Scenarios: l,
